@@ -51,6 +51,12 @@ def families(rng, dtype):
         r1, r2, r3 = T(rng.uniform(-2.5, -1.0)), T(rng.uniform(-0.5, 0.5)), T(rng.uniform(1.0, 2.5))
         d1, d2 = T(rng.uniform(0.02, 0.6)), T(rng.uniform(0.02, 0.6))
         out.append(("cubic-roots-just-outside", dict(r=[float(r1), float(r2), float(r3)]), (lambda x, r1=r1, r2=r2, r3=r3: (x - r1) * (x - r2) * (x - r3)), r1 + d1, r3 - d2, True, True))
+        # far from the origin the spacing of the floats exceeds small absolute tolerances: the bracket-width floor 4 eps max(|a|, |b|) decides
+        rf = T(rng.uniform(20, 500)) * T(rng.choice([-1, 1]))
+        sf = T(10.0 ** rng.uniform(0, 6)) * T(rng.choice([-1, 1]))
+        wf = T(rng.uniform(0.5, 4.0))
+        out.append(("steep-linear-far", dict(s=float(sf), r=float(rf)), (lambda x, s=sf, r=rf: s * (x - r)), rf - wf * T(rng.uniform(0.1, 1)), rf + wf * T(rng.uniform(0.1, 1)), True, True))
+        out.append(("jump-far", dict(r=float(rf)), (lambda x, r=rf: T(1.5) if x > r else T(-0.5)), rf - wf, rf + wf * T(0.7), True, False))
         tiny = T(10.0 ** rng.uniform(-12, -9))
         out.append(("tiny-positive", dict(t=float(tiny)), (lambda x, tiny=tiny: tiny * (T(1.0) + x * x)), T(-1.0), T(1.0), False, True))
     return out
@@ -203,7 +209,7 @@ def run(ctx):
     for T2 in (np.float32, np.longdouble):
         for rep in range(10 if ctx.quick() else 100):
             for (name, params, f, lo, hi, sc, cont) in families(rng, T2):
-                tol = rng.choice([None, 1e-6, 1e-3])
+                tol = rng.choice([None, 1e-6, 1e-3, 1e-8, 1e-10])
                 try:
                     root, success = OPT.brentsroot(f, [T2(lo), T2(hi)], tol=tol)
                 except Exception as e:
